@@ -113,8 +113,10 @@ func genHostile(t *rapid.T, sc *Scenario) {
 	}
 }
 
-func TestC11(t *testing.T) {
-	rapid.Check(t, func(t *rapid.T) {
+func TestC11(t *testing.T) { rapid.Check(t, propC11) }
+
+func propC11(t *rapid.T) {
+	{
 		o := genOpts{maxBlob: 12, backendKinds: []string{"ok", "ok", "error", "trailers_only", "http_status"}, segmentation: rapid.IntRange(0, 2).Draw(t, "use_segmentation") == 0}
 		sc := genScenario(t, o)
 		sc.Config.MaxMsg = uint32(rapid.SampledFrom([]int{0, 1 << 20, 1 << 20, 64, 1024}).Draw(t, "limit"))
@@ -124,7 +126,7 @@ func TestC11(t *testing.T) {
 			sc.Note += "no_flusher;"
 		}
 		judge(t, "C11", sc, checkC11(sc))
-	})
+	}
 }
 
 func checkC11(sc *Scenario) *CheckResult {
